@@ -18,11 +18,16 @@
      functions parses, returns for each value the steps reach (nav_all, defined on the document alone), in the order
      they reach them, g(f(value)) — dropping a value on which a function fails, failing when none is left — and its
      call log is exactly: for each of those values in that order, f on it, then g on what f returned, until one fails.
+   * C14_aggregate_from_text / C14_aggregate_calls_from_text — the same text with a registered aggregate function g first
+     (`$` steps `.g()` `.f()` ...): g is called exactly once, with all the values the steps reach in the order they
+     reach them — or with the elements of the array when the steps are a single-valued path (steps_vg false) reaching an
+     array —, and not at all when they reach nothing; its return value is the single result, to which the filter
+     functions that follow apply left to right; the call log is exactly that.
    Scope: user functions inside filter operands are outside C14_call_log (their calls are
    short-circuited by && / || by design); they are compared with the model call by call on every
    generated case, like everything else. *)
 From JP Require Import Eval WF Verdict Spec CallDefs Actions EvalInv1 EvalInv3 EvalInv4 Refine1 Refine2 CallFacts SpecCalls SpecCallsCompose.
-From JP Require Import Json Text Tree Grammar KeyDefs ChainParse ChainAddr FunParse FunAddr.
+From JP Require Import Json Text Tree Grammar KeyDefs ChainParse ChainAddr FunParse FunAddr AggParse AggAddr.
 From Coq Require Import List NArith ZArith String. Import ListNotations.
 
 Theorem C14_call_log : forall ffun afun regex_match,
@@ -104,4 +109,38 @@ Example C14_from_text_example :
   calls_all ffun fs (nav_all steps ([], doc)) =
     [CallF "id" (VNum (num_of_Z 1)); CallF "w" (VNum (num_of_Z 1)); CallF "id" (VStr "x");
      CallF "id" (VNum (num_of_Z 3)); CallF "w" (VNum (num_of_Z 3))]%string.
+Proof. cbv zeta. repeat split; vm_compute; reflexivity. Qed.
+
+Theorem C14_aggregate_from_text : forall cfg parse_float regex_ok ffun afun regex_match,
+  (forall f v w, small v -> ffun f v = Some w -> small w) ->
+  (forall f l w, Forall small l -> afun f l = Some w -> small w) ->
+  forall x r g fs doc st, forallb rstep_ok (x :: r) = true -> forallb fname_ok (g :: fs) = true ->
+  agg_known cfg g = true -> forallb (fun_known cfg) fs = true -> small doc -> ok st ->
+  exists t, parse_with cfg parse_float regex_ok jsonpath_grammar (chain_fun_path (x :: r) (g :: fs)) = ParseOk t /\
+            match agg_outcome ffun afun x r g fs doc with
+            | Some w => fst (eval_run ffun afun regex_match t doc st) = OOk [fun_result cfg w]
+            | None => exists e, fst (eval_run ffun afun regex_match t doc st) = OErr e
+            end.
+Proof. exact chain_agg_retrieval. Qed.
+Print Assumptions C14_aggregate_from_text.
+
+Theorem C14_aggregate_calls_from_text : forall cfg parse_float regex_ok ffun afun regex_match,
+  (forall f v w, small v -> ffun f v = Some w -> small w) ->
+  (forall f l w, Forall small l -> afun f l = Some w -> small w) ->
+  forall x r g fs doc st, forallb rstep_ok (x :: r) = true -> forallb fname_ok (g :: fs) = true ->
+  agg_known cfg g = true -> forallb (fun_known cfg) fs = true -> small doc -> ok st ->
+  exists t, parse_with cfg parse_float regex_ok jsonpath_grammar (chain_fun_path (x :: r) (g :: fs)) = ParseOk t /\
+            calls (snd (eval_run ffun afun regex_match t doc st)) = calls st ++ agg_calls ffun afun x r g fs doc.
+Proof. exact chain_agg_calls. Qed.
+Print Assumptions C14_aggregate_calls_from_text.
+
+(* what the aggregate receives: all the values of a value group; the elements of the array a single-valued path reaches *)
+Example C14_aggregate_example :
+  let doc := VObj [("a", VArr [VNum (num_of_Z 1); VStr "x"])]%string in
+  agg_input [RPlain (SDot [97]); RPlain (SWild false)] doc = [VNum (num_of_Z 1); VStr "x"] /\
+  agg_input [RPlain (SDot [97])] doc = [VNum (num_of_Z 1); VStr "x"] /\
+  agg_input [RRec (SDot [97])] doc = [VArr [VNum (num_of_Z 1); VStr "x"]] /\
+  agg_calls (fun _ v => Some v) (fun _ l => Some (VArr l)) (RPlain (SDot [97])) [] [99] [[105]] doc =
+    [CallA "c" [VNum (num_of_Z 1); VStr "x"]; CallF "i" (VArr [VNum (num_of_Z 1); VStr "x"])]%string /\
+  agg_calls (fun _ v => Some v) (fun _ l => Some (VArr l)) (RPlain (SDot [98])) [] [99] [[105]] doc = [].
 Proof. cbv zeta. repeat split; vm_compute; reflexivity. Qed.
